@@ -223,15 +223,19 @@ class C15(Check):
     level = 'exploration'
     rule = ('case = one rendered topology file = (labelled graph, edge -> section assignment, atom numbering, '
             'residue layout, section order, noise template) or (large family, size) or (line kind with an '
-            'attached comment / section holding an indented directive); distinct by descriptor; non-trivial = the file lists at least one pair, so the '
-            'number -> position translation and the symmetric connect ran')
+            'attached comment / section holding an indented directive); distinct by descriptor; non-trivial = '
+            'the file lists at least one pair, so the number -> position translation and the symmetric connect ran')
     technique = ('exhaustive enumeration of all labelled graphs x file renderings, each read by the real '
                  'read_topology / MoleculeTop / are_connected / copy and by an independent reference reader')
     level_text = ('every labelled simple graph on 1..4 (quick) / 1..5 (thorough) atoms, with every assignment of its '
                   'edges to bonds/constraints/pairs (at most 2 edges off [ bonds ] beyond 4 edges), 3 numberings, '
                   '3 residue layouts, 3 section orders and 6 noise templates, and 6 large families at 5 sizes up to '
-                  '3000 atoms are rendered and read by the real code; a coverage statement over that finite space')
-    level_note = ('trusted: the reference reader mcx/ref/itp.py (self-tested), the graph enumerators; reading: '
+                  '3000 atoms are rendered and read by the real code, plus one file per typed section with a comment glued to '
+                  'the last token (`1 2 1;c`) and one with indented directives; a coverage statement over that finite space')
+    level_note = ('trusted: the reference reader mcx/ref/itp.py (self-tested), the graph enumerators; each file is loaded '
+                  'once by MoleculeTop and the value read_topology returned is recorded by a pass-through wrapper at that '
+                  'call site (read_topology is also called directly on the plain renderings, the large and the '
+                  'attached / indented families); reading: '
                   '"preprocessor lines ignored" = both branches of an #ifdef are read; pairs are compared as a set of '
                   'unordered position pairs; sections other than bonds/constraints/pairs (angles, exclusions) must not '
                   'contribute; "equal" copy = the library\'s own == plus field-wise equality; not covered: self-bonds, '
@@ -240,6 +244,9 @@ class C15(Check):
     assumptions = ['files are rendered from 6 noise templates; other layouts of comments / preprocessor lines are not covered',
                    'atom numberings: 1..n, increasing with gaps (10, 20, 35, 55, 80), offset 101.., and n..1 for the '
                    'reversed large chain']
+
+    def setup(self, tier, seed):
+        assert itp.selftest() and en.selftest()
 
     def units(self, tier, seed):
         nmax = 5 if tier == 'thorough' else 4
